@@ -166,6 +166,14 @@ def pat_bind(pat, val, env):
                         return r
                 return True
             return None
+        if pat[0] == "pleaf" and isinstance(val, tuple) and val and val[0] == "tuple":
+            if len(pat) != len(val):
+                return None
+            for p, v in zip(pat[1:], val[1:]):
+                r = pat_bind(p, v, env)
+                if r is not True:
+                    return r
+            return True
         if pat[0] == "por":
             for q in pat[1:]:
                 e2 = {}
